@@ -145,3 +145,17 @@ def make_target(kind, n):
 
 def target_bytes(t):
     return bytes(t)
+
+
+# ------------------------------------------------------------------ concurrent writers
+def cw_chunks(case):
+    """chunks[t][k]: the k-th chunk thread t writes; incompressible (every write makes the compressor emit bytes) and
+    tagged so that every chunk is recognisable in the decoded stream"""
+    out = []
+    for t, sizes in enumerate(case["threads"]):
+        row = []
+        for k, n in enumerate(sizes):
+            body = payload({"gen": "lcg", "n": n, "seed": case.get("seed", 0) * 101 + t * 17 + k})
+            row.append(b"<T%d:%d>" % (t, k) + body)
+        out.append(row)
+    return out
